@@ -34,16 +34,52 @@ theorem C01_gamma_of_premises {n : ℕ} (A Ainv : Matrix (Fin n) (Fin n) ℚ) (h
       gamMx A x0 Yref p s Ndat ((p + 1) * Yref.r) * Γr = 1 :=
   gam_right_inv A Ainv hA Cref x0 Yref p s hs Ndat hYref Xr hX OL hO
 
+theorem map_pow_ofR {n : ℕ} (A : Matrix (Fin n) (Fin n) ℚ) (t : ℕ) :
+    (A.map ofR) ^ t = (A ^ t).map ofR := by
+  have := map_pow (ofR.mapMatrix (m := Fin n)) A t
+  simpa [RingHom.mapMatrix_apply] using this.symm
+
 /-- the state sequence of the complexified system is the complexified state sequence -/
 theorem kryMx_map {n : ℕ} (A : Matrix (Fin n) (Fin n) ℚ) (x0 : Fin n → ℚ) (T : ℕ) :
     kryMx (A.map ofR) (fun k => ofR (x0 k)) T = (kryMx A x0 T).map ofR := by
   funext k t
   simp only [kryMx, Matrix.of_apply, Matrix.map_apply, stateAt]
-  have h1 : (A.map ofR) ^ t.1 = (A ^ t.1).map ofR := by
-    have := map_pow (ofR.mapMatrix (m := Fin n)) A t.1
-    simpa [RingHom.mapMatrix_apply] using this.symm
-  rw [h1]
+  rw [map_pow_ofR]
   exact (RingHom.map_mulVec ofR (A ^ t.1) x0 k).symm
+
+/-- the observability matrix of the complexified pair is the complexified observability matrix -/
+theorem obsMx_map {n : ℕ} (m l : ℕ) (A : Matrix (Fin n) (Fin n) ℚ) (C : ℕ → Fin n → ℚ) :
+    obsMx m l (A.map ofR) (fun a k => ofR (C a k)) = (obsMx m l A C).map ofR := by
+  funext I k
+  simp only [obsMx, Matrix.of_apply, Matrix.map_apply, obsFn]
+  rw [map_sum]
+  apply Finset.sum_congr rfl; intro k' _
+  rw [map_mul, map_pow_ofR]
+  rfl
+
+/-- **"Every mode is observed" gives observability.**  `A` (real) is diagonalised over `Cpx ℚ` by `V`
+    with pairwise distinct eigenvalues and every eigenvector is seen by at least one of the `l` output
+    rows (`C_a·V_k ≠ 0`); then `p ≥ n` block rows make the observability matrix left invertible over
+    `ℚ` — the hypotheses `hObs` (all channels) and `hO` (reference channels) of the end-to-end
+    theorems.  (`p ≥ n` is sufficient for every output count; the property's "observability index"
+    can be smaller when several channels see the modes independently.) -/
+theorem C01_observable_of_modal {n : ℕ} (l p : ℕ) (A : Matrix (Fin n) (Fin n) ℚ) (C : ℕ → Fin n → ℚ)
+    (V Vinv : Matrix (Fin n) (Fin n) (Cpx ℚ)) (d : Fin n → Cpx ℚ)
+    (hV : V * Vinv = 1) (hAV : A.map ofR * V = V * diagonal d) (hd : Function.Injective d)
+    (hobs : ∀ k : Fin n, ∃ a, a < l ∧ ((fun j => ofR (C a j)) ⬝ᵥ fun j => V j k) ≠ 0) (hp : n ≤ p) :
+    ∃ OL : Matrix (Fin n) (Fin (p * l)) ℚ, OL * obsMx (p * l) l A C = 1 := by
+  apply left_inv_of_mulVec_inj
+  intro v hv
+  have hc : obsMx (p * l) l (A.map ofR) (fun a k => ofR (C a k)) *ᵥ (fun k => ofR (v k)) = 0 := by
+    rw [obsMx_map]
+    funext I
+    have := RingHom.map_mulVec ofR (obsMx (p * l) l A C) v I
+    rw [hv] at this
+    simp only [Pi.zero_apply, map_zero] at this
+    exact this.symm
+  have h0 := obs_inj_of_modal (A.map ofR) V Vinv d hV hAV hd (fun a k => ofR (C a k)) hobs hp _ hc
+  funext k
+  exact congrArg Cpx.re (congrFun h0 k)
 
 /-- **"The initial condition excites all modes" gives the spanning state sequence.**  `A` (real)
     is diagonalised over `Cpx ℚ` by `V` with pairwise distinct eigenvalues `d`, and no modal
@@ -116,6 +152,87 @@ theorem C01_e2e_dat_excited {n : ℕ} (A Ainv : Matrix (Fin n) (Fin n) ℚ) (hA 
   exact C01_e2e_dat A C x0 Y Yref p s hl hY Γr hΓ Olp hObs Rf hRc hdq U V S sq N hsvd hsq Q R Rinv hqr
     Pinv hpinv Vf Vl lamf laml heigf heigl dt hdt lam w mu hm
 
+/-- **A sampled system with non-zero poles is invertible** (over `ℚ`, from the diagonalisation over
+    `Cpx ℚ`: `A⁻¹ = Re(V·D⁻¹·V⁻¹)`). -/
+theorem C01_invertible_of_modal {n : ℕ} (A : Matrix (Fin n) (Fin n) ℚ)
+    (V Vinv : Matrix (Fin n) (Fin n) (Cpx ℚ)) (d : Fin n → Cpx ℚ)
+    (hV : V * Vinv = 1) (hAV : A.map ofR * V = V * diagonal d) (hnz : ∀ i, d i ≠ 0) :
+    ∃ Ainv : Matrix (Fin n) (Fin n) ℚ, A * Ainv = 1 := by
+  refine ⟨(V * diagonal (fun i => (d i)⁻¹) * Vinv).map Cpx.re, right_inv_re A _ ?_⟩
+  have hdd : diagonal d * diagonal (fun i => (d i)⁻¹) = (1 : Matrix (Fin n) (Fin n) (Cpx ℚ)) := by
+    rw [diagonal_mul_diagonal]
+    have : (fun i => d i * (d i)⁻¹) = fun _ => (1 : Cpx ℚ) := by
+      funext i; exact mul_inv_cancel₀ (hnz i)
+    rw [this, diagonal_one]
+  calc A.map ofR * (V * diagonal (fun i => (d i)⁻¹) * Vinv)
+      = (A.map ofR * V) * diagonal (fun i => (d i)⁻¹) * Vinv := by simp only [Matrix.mul_assoc]
+    _ = V * (diagonal d * diagonal (fun i => (d i)⁻¹)) * Vinv := by rw [hAV]; simp only [Matrix.mul_assoc]
+    _ = 1 := by rw [hdd, Matrix.mul_one, hV]
+
+/-- **C01 end to end, covariance-driven, from modal premises only.**  Besides the recorded-factor
+    contracts and the observability of `(A, C)` with `p` block rows (the property's `br ≥ index + 1`),
+    the premises are the property's own: `A` diagonalisable with pairwise distinct, non-zero poles `d`;
+    no modal coordinate of `x0` vanishes (all modes excited); every mode seen by a reference channel;
+    at least `n` averaged samples and `p + 1 ≥ n` block rows of references. -/
+theorem C01_e2e_cov_modal {n : ℕ} (A : Matrix (Fin n) (Fin n) ℚ) (C Cref : ℕ → Fin n → ℚ)
+    (x0 : Fin n → ℚ) (Vm Vminv : Matrix (Fin n) (Fin n) (Cpx ℚ)) (d : Fin n → Cpx ℚ)
+    (hVm : Vm * Vminv = 1) (hAV : A.map ofR * Vm = Vm * diagonal d) (hd : Function.Injective d)
+    (hnz : ∀ i, d i ≠ 0) (hexc : ∀ i, (Vminv *ᵥ (fun k => ofR (x0 k))) i ≠ 0)
+    (Y Yref : Mat ℚ) (p : ℕ) (s : ℚ) (hs : s ≠ 0) (hl : 0 < Y.r) (hY : IsFreeResponse A C x0 Y)
+    (hYref : ∀ b t, b < Yref.r → t < Y.c → Yref.e b t = Cref b ⬝ᵥ stateAt A x0 t)
+    (hobsRef : ∀ k : Fin n, ∃ b, b < Yref.r ∧ ((fun j => ofR (Cref b j)) ⬝ᵥ fun j => Vm j k) ≠ 0)
+    (hnp : n ≤ p + 1) (hnT : n ≤ Y.c - p - (p + 1) - 1)
+    (Olp : Matrix (Fin n) (Fin (p * Y.r)) ℚ) (hObs : Olp * obsMx (p * Y.r) Y.r A C = 1)
+    (U V : Mat ℚ) (S sq : ℕ → ℚ) (N : ℕ)
+    (hsvd : SvdOf (hankMM Y Yref p s) U V S N) (hsq : SqrtOf sq S N)
+    (Q R Rinv : Mat ℚ) (hqr : QrC (upPart (obsOf U sq N) Y.r) Q R Rinv (p * Y.r) N n)
+    (Pinv : Mat ℚ) (hpinv : PinvC (obsOf U sq n) Pinv (p * Y.r) n Y.r)
+    (Vf Vl : Mat (Cpx ℚ)) (lamf laml : ℕ → Cpx ℚ)
+    (heigf : EigOf n (fastA Rinv Q (dnPart (obsOf U sq N) Y.r) n) Vf lamf)
+    (heigl : EigOf n (legacyA Pinv (obsOf U sq n) Y.r) Vl laml)
+    (dt : ℝ) (hdt : 0 < dt) (lam : Cpx ℚ) (w : Fin n → Cpx ℚ) (mu : ℂ) (hm : Mode A dt lam w mu) :
+    (n ≤ N ∧ (∀ t, t < n → S t ≠ 0) ∧ (∀ t, n ≤ t → t < N → S t = 0)) ∧
+    Recovered A C Y.r dt lam w mu (fastA Rinv Q (dnPart (obsOf U sq N) Y.r) n)
+        (outC (obsOf U sq N) Y.r n) Vf lamf ∧
+    Recovered A C Y.r dt lam w mu (legacyA Pinv (obsOf U sq n) Y.r)
+        (outC (obsOf U sq n) Y.r n) Vl laml := by
+  obtain ⟨Ainv, hA⟩ := C01_invertible_of_modal A Vm Vminv d hVm hAV hnz
+  obtain ⟨Xr, hX⟩ := C01_excited_of_modal A x0 Vm Vminv d hVm hAV hd hexc _ hnT
+  obtain ⟨OL, hO⟩ := C01_observable_of_modal Yref.r (p + 1) A Cref Vm Vminv d hVm hAV hd hobsRef hnp
+  exact C01_e2e_cov_excited A Ainv hA C Cref x0 Y Yref p s hs hl hY hYref Xr hX OL hO Olp hObs U V S sq N
+    hsvd hsq Q R Rinv hqr Pinv hpinv Vf Vl lamf laml heigf heigl dt hdt lam w mu hm
+
+/-- **C01 end to end, data-driven, from modal premises only** (as `C01_e2e_cov_modal`). -/
+theorem C01_e2e_dat_modal {n : ℕ} (A : Matrix (Fin n) (Fin n) ℚ) (C Cref : ℕ → Fin n → ℚ)
+    (x0 : Fin n → ℚ) (Vm Vminv : Matrix (Fin n) (Fin n) (Cpx ℚ)) (d : Fin n → Cpx ℚ)
+    (hVm : Vm * Vminv = 1) (hAV : A.map ofR * Vm = Vm * diagonal d) (hd : Function.Injective d)
+    (hnz : ∀ i, d i ≠ 0) (hexc : ∀ i, (Vminv *ᵥ (fun k => ofR (x0 k))) i ≠ 0)
+    (Y Yref : Mat ℚ) (p : ℕ) (s : ℚ) (hs : s ≠ 0) (hl : 0 < Y.r) (hY : IsFreeResponse A C x0 Y)
+    (hYref : ∀ b t, b < Yref.r → t < Y.c → Yref.e b t = Cref b ⬝ᵥ stateAt A x0 t)
+    (hobsRef : ∀ k : Fin n, ∃ b, b < Yref.r ∧ ((fun j => ofR (Cref b j)) ⬝ᵥ fun j => Vm j k) ≠ 0)
+    (hnp : n ≤ p + 1) (hnT : n ≤ Y.c - p - (p + 1) - 1)
+    (Olp : Matrix (Fin n) (Fin (p * Y.r)) ℚ) (hObs : Olp * obsMx (p * Y.r) Y.r A C = 1)
+    (Rf : Mat ℚ) (hRc : Rf.c = (Yref.r + Y.r) * (p + 1))
+    (hdq : DatQr (hankYs Y Yref p s) Rf ((p + 1) * Yref.r) ((p + 1) * Y.r) (Y.c - p - (p + 1) - 1))
+    (U V : Mat ℚ) (S sq : ℕ → ℚ) (N : ℕ)
+    (hsvd : SvdOf (hankDatOfR Rf Yref.r p) U V S N) (hsq : SqrtOf sq S N)
+    (Q R Rinv : Mat ℚ) (hqr : QrC (upPart (obsOf U sq N) Y.r) Q R Rinv (p * Y.r) N n)
+    (Pinv : Mat ℚ) (hpinv : PinvC (obsOf U sq n) Pinv (p * Y.r) n Y.r)
+    (Vf Vl : Mat (Cpx ℚ)) (lamf laml : ℕ → Cpx ℚ)
+    (heigf : EigOf n (fastA Rinv Q (dnPart (obsOf U sq N) Y.r) n) Vf lamf)
+    (heigl : EigOf n (legacyA Pinv (obsOf U sq n) Y.r) Vl laml)
+    (dt : ℝ) (hdt : 0 < dt) (lam : Cpx ℚ) (w : Fin n → Cpx ℚ) (mu : ℂ) (hm : Mode A dt lam w mu) :
+    (n ≤ N ∧ (∀ t, t < n → S t ≠ 0) ∧ (∀ t, n ≤ t → t < N → S t = 0)) ∧
+    Recovered A C Y.r dt lam w mu (fastA Rinv Q (dnPart (obsOf U sq N) Y.r) n)
+        (outC (obsOf U sq N) Y.r n) Vf lamf ∧
+    Recovered A C Y.r dt lam w mu (legacyA Pinv (obsOf U sq n) Y.r)
+        (outC (obsOf U sq n) Y.r n) Vl laml := by
+  obtain ⟨Ainv, hA⟩ := C01_invertible_of_modal A Vm Vminv d hVm hAV hnz
+  obtain ⟨Xr, hX⟩ := C01_excited_of_modal A x0 Vm Vminv d hVm hAV hd hexc _ hnT
+  obtain ⟨OL, hO⟩ := C01_observable_of_modal Yref.r (p + 1) A Cref Vm Vminv d hVm hAV hd hobsRef hnp
+  exact C01_e2e_dat_excited A Ainv hA C Cref x0 Y Yref p s hs hl hY hYref Xr hX OL hO Olp hObs Rf hRc hdq
+    U V S sq N hsvd hsq Q R Rinv hqr Pinv hpinv Vf Vl lamf laml heigf heigl dt hdt lam w mu hm
+
 /-! ## Non-vacuity: the instance of `C01E2E.Ex` satisfies the new premises -/
 namespace Ex
 open PV.C01E2E.Ex
@@ -160,6 +277,26 @@ def dm : Fin 2 → Cpx ℚ := fun i => if i = 0 then ⟨0, 3/4⟩ else ⟨0, -3/
 example : ∃ Xr : Matrix (Fin 2) (Fin 2) ℚ, kryMx A x0 2 * Xr = 1 :=
   C01_excited_of_modal A x0 Vm Vminv dm (by decide +kernel) (by decide +kernel) (by decide +kernel)
     (by decide +kernel) 2 (le_refl 2)
+
+/-- **all premises of `C01_e2e_cov_modal` hold together**: the instance's mode is recovered through both
+    routines from the modal premises (poles `±¾i` distinct and non-zero, modal coordinates `(½, ½)`, both
+    modes seen by reference channel 0, `n = 2 ≤ p + 1 = 2`, `n = 2 ≤ 2` averaged samples). -/
+example :
+    (2 ≤ 2 ∧ (∀ t, t < 2 → S t ≠ 0) ∧ (∀ t, 2 ≤ t → t < 2 → S t = 0)) ∧
+    Recovered A C Y.r (1 / 100) lam w mu (fastA Rinv Q (dnPart (obsOf U sq 2) Y.r) 2)
+        (outC (obsOf U sq 2) Y.r 2) Vec lams ∧
+    Recovered A C Y.r (1 / 100) lam w mu (legacyA Pinv (obsOf U sq 2) Y.r)
+        (outC (obsOf U sq 2) Y.r 2) Vec lams :=
+  C01_e2e_cov_modal A C C x0 Vm Vminv dm (by decide +kernel) (by decide +kernel) (by decide +kernel)
+    (by decide +kernel) (by decide +kernel) Y Y 1 1 (by norm_num) (by decide) free hYref
+    (by decide +kernel) (by decide) (by decide) Olp hObs U V S sq 2 hsvd hsq Q R Rinv hqr Pinv hpinv
+    Vec Vec lams lams (eig_of _ (by decide +kernel)) (eig_of _ (by decide +kernel)) (1 / 100)
+    (by norm_num) lam w mu mode
+
+/-- observability of the instance from its modal data, with `p = 2 ≥ n` block rows -/
+example : ∃ OL : Matrix (Fin 2) (Fin (2 * 2)) ℚ, OL * obsMx (2 * 2) 2 A C = 1 :=
+  C01_observable_of_modal 2 2 A C Vm Vminv dm (by decide +kernel) (by decide +kernel) (by decide +kernel)
+    (by decide +kernel) (le_refl 2)
 
 /-- all premises of `C01_gamma_of_premises` hold together for the instance -/
 example : ∃ Γr : Matrix (Fin ((1 + 1) * Y.r)) (Fin 2) ℚ,
